@@ -16,6 +16,7 @@
 
 from __future__ import absolute_import
 
+from .errors import CompletionCodeError
 from .utils import check_completion_code
 from .msgs import create_request_by_name
 
@@ -117,10 +118,23 @@ class Sensor(object):
         req.offset = offset
         req.bytes_to_read = length
 
-        rsp = get_sdr_chunk_helper(self.send_message, req,
-                                   self.reserve_device_sdr_repository)
+        try:
+            rsp = get_sdr_chunk_helper(self.send_message, req,
+                                       self.reserve_device_sdr_repository)
+        except CompletionCodeError as e:
+            e.reservation_id = req.reservation_id
+            raise
 
-        return (rsp.next_record_id, rsp.record_data)
+        return (rsp.next_record_id, rsp.record_data, req.reservation_id)
+
+    def _get_device_sdr(self, record_id, reservation_id=None):
+        (next_id, record_data, reservation_id) = \
+            get_sdr_data_helper(self.reserve_device_sdr_repository,
+                                self._get_device_sdr_chunk,
+                                record_id, reservation_id,
+                                with_reservation=True)
+
+        return (sdr.SdrCommon.from_data(record_data, next_id), reservation_id)
 
     def get_device_sdr(self, record_id, reservation_id=None):
         """Collect all data from the sensor device to get the SDR.
@@ -129,12 +143,7 @@ class Sensor(object):
         `reservation_id=None` can be set. if None the reservation ID will
         be determined.
         """
-        (next_id, record_data) = \
-            get_sdr_data_helper(self.reserve_device_sdr_repository,
-                                self._get_device_sdr_chunk,
-                                record_id, reservation_id)
-
-        return sdr.SdrCommon.from_data(record_data, next_id)
+        return self._get_device_sdr(record_id, reservation_id)[0]
 
     def device_sdr_entries(self):
         """A generator that returns the SDR list.
@@ -146,7 +155,8 @@ class Sensor(object):
         record_id = 0
 
         while True:
-            record = self.get_device_sdr(record_id, reservation_id)
+            (record, reservation_id) = self._get_device_sdr(record_id,
+                                                            reservation_id)
             yield record
             if record.next_id == 0xffff:
                 break
